@@ -205,6 +205,26 @@ def step(state: RefState, prog: list, pc: int) -> int:
         if q0 is None or q1 is None:
             raise RefFault(pc, "qubit address undefined")
         state.events.append((mn, q0, q1))
+    elif mn in ("wait_all", "wait_any"):
+        sl = ops[0]
+        a = sl.address.address
+        if a not in state.arrays:
+            raise RefFault(pc, "array not declared")
+        lo, hi = _index(state, pc, sl.start), _index(state, pc, sl.stop)
+        arr = state.arrays[a]
+        if lo < 0 or hi < 0:
+            raise Unspecified("negative slice bound")
+        if hi > len(arr) or lo > hi:
+            raise Unspecified("slice bound outside the array")
+        lo, hi = conc(lo, len(arr) + 1), conc(hi, len(arr) + 1)
+        vals = arr[lo:hi]
+        ok = all(v is not None for v in vals) if mn == "wait_all" else any(v is not None for v in vals)
+        if not ok:
+            raise Unspecified("wait would block")
+    elif mn == "wait_single":
+        arr, i = _entry(state, pc, ops[0])
+        if arr[i] is None:
+            raise Unspecified("wait would block")
     else:
         raise Unspecified(f"instruction {mn} not in the reference semantics")
     return pc + 1
